@@ -257,11 +257,48 @@ def _text_labels(case):
     return labels
 
 
+def _encode(F, via, header_on, varnames_on, path=None):
+    """One DIMACS encoding of F.  -> (text, header_on, varnames_on) with the flags as they apply."""
+    if via == 'to_dimacs':
+        return F.to_dimacs(), False, False
+    if via == 'strio':
+        buf = _Buf()
+        F.to_file(buf, export_header=header_on, export_varnames=varnames_on)
+        text = buf.getvalue()
+    elif via == 'strio-explicit':
+        buf = _Buf()
+        F.to_file(buf, fileformat='dimacs', export_header=header_on, export_varnames=varnames_on)
+        text = buf.getvalue()
+    elif via == 'to_dimacs_file':
+        from cnfgen.utils.parsedimacs import to_dimacs_file
+        buf = _Buf()
+        to_dimacs_file(F, buf, export_header=header_on, export_varnames=varnames_on)
+        text = buf.getvalue()
+    elif via == 'stdout':
+        old = sys.stdout
+        buf = _Buf()
+        sys.stdout = buf
+        try:
+            F.to_file(None, export_header=header_on, export_varnames=varnames_on)
+        finally:
+            sys.stdout = old
+        text = buf.getvalue()
+    elif via == 'file':
+        F.to_file(path, export_header=header_on, export_varnames=varnames_on)
+        with open(path, encoding='utf-8', newline='') as f:
+            text = f.read()
+    else:
+        raise KeyError(via)
+    return text, header_on, varnames_on
+
+
 def run_writer(case):
     kind = case['kind']
     labels = {'kind-' + kind}
     if kind == 'cli':
         return _run_writer_cli(case, labels)
+    if kind == 'history':
+        return _run_history(case, labels)
     F = _build(case)
     n, clauses = _snapshot(F)
     via = case['via']
@@ -270,39 +307,10 @@ def run_writer(case):
     tmp = None
     path = None
     try:
-        if via == 'to_dimacs':
-            text = F.to_dimacs()
-            header_on = varnames_on = False
-        elif via == 'strio':
-            buf = _Buf()
-            F.to_file(buf, export_header=header_on, export_varnames=varnames_on)
-            text = buf.getvalue()
-        elif via == 'strio-explicit':
-            buf = _Buf()
-            F.to_file(buf, fileformat='dimacs', export_header=header_on, export_varnames=varnames_on)
-            text = buf.getvalue()
-        elif via == 'to_dimacs_file':
-            from cnfgen.utils.parsedimacs import to_dimacs_file
-            buf = _Buf()
-            to_dimacs_file(F, buf, export_header=header_on, export_varnames=varnames_on)
-            text = buf.getvalue()
-        elif via == 'stdout':
-            old = sys.stdout
-            buf = _Buf()
-            sys.stdout = buf
-            try:
-                F.to_file(None, export_header=header_on, export_varnames=varnames_on)
-            finally:
-                sys.stdout = old
-            text = buf.getvalue()
-        elif via == 'file':
+        if via == 'file':
             tmp = _tmpdir()
             path = os.path.join(tmp, case.get('fname') or 'formula.cnf')
-            F.to_file(path, export_header=header_on, export_varnames=varnames_on)
-            with open(path, encoding='utf-8', newline='') as f:
-                text = f.read()
-        else:
-            raise KeyError(via)
+        text, header_on, varnames_on = _encode(F, via, header_on, varnames_on, path)
         if _snapshot(F) != (n, clauses):
             raise Violation("{}: writing changed the formula".format(what))
         ncomments = _verify_output(text, n, clauses, header_on, varnames_on, case, what, path=path)
@@ -384,6 +392,221 @@ def _run_writer_cli(case, labels):
     if '-T' in base:
         labels.add('chain')
     return _writer_outcome(labels, n, clauses, header_on, {})
+
+
+# ---- (a') history: one formula object, encoded again and again while it grows
+
+HIST_VIAS = ['to_dimacs', 'strio', 'strio-explicit', 'to_dimacs_file', 'stdout', 'file']
+HIST_CLI = [['php', 3, 2], ['php', 2, 2, '--functional'], ['op', 3], ['and', 2, 1], ['or', 0, 3], ['count', 4, 2],
+            ['parity', 3], ['peb', 'pyramid', 1], ['tseitin', 'first', 'complete', 3], ['true'], ['false']]
+HIST_GROUPS = ['combinations', 'cwr', 'permutations', 'words', 'mapping', 'binary', 'graph', 'bipartite', 'digraph']
+LINEAR_OPS = ['<=', '>=', '<', '>', '==', '!=']
+
+
+def _group_size(which, a, b):
+    """Number of variables of a variable group, from its definition."""
+    if which == 'combinations':
+        return math.comb(a, b)
+    if which == 'cwr':
+        return 1 if b == 0 else (math.comb(a + b - 1, b) if a > 0 else 0)
+    if which == 'permutations':
+        return math.perm(a, b)
+    if which == 'words':
+        return a ** b
+    if which == 'mapping':
+        return a * b
+    if which == 'binary':
+        bits = 0
+        while (1 << bits) < b:
+            bits += 1
+        return a * bits
+    if which == 'graph':
+        return a * (a - 1) // 2
+    if which == 'bipartite':        # left side a+1, right side b+1, edges (i,j) with (i+j) even
+        return sum(1 for i in range(1, a + 2) for j in range(1, b + 2) if (i + j) % 2 == 0)
+    if which == 'digraph':          # a+1 vertices, arcs i -> i+1 and, when b is odd, the arc back to 1
+        return a + (1 if b % 2 and a >= 1 else 0)
+    raise KeyError(which)
+
+
+def _new_group(F, which, a, b):
+    from cnfgen.graphs import Graph, BipartiteGraph, DirectedGraph
+    if which == 'combinations':
+        return F.new_combinations(a, b)
+    if which == 'cwr':
+        return F.new_combinations_with_replacement(a, b)
+    if which == 'permutations':
+        return F.new_permutations(a, b)
+    if which == 'words':
+        return F.new_words(a, b)
+    if which == 'mapping':
+        return F.new_mapping(a, b)
+    if which == 'binary':
+        return F.new_binary_mapping(a, b)
+    if which == 'graph':
+        return F.new_graph_edges(Graph.complete_graph(a))
+    if which == 'bipartite':
+        B = BipartiteGraph(a + 1, b + 1)
+        for i in range(1, a + 2):
+            for j in range(1, b + 2):
+                if (i + j) % 2 == 0:
+                    B.add_edge(i, j)
+        return F.new_bipartite_edges(B)
+    if which == 'digraph':
+        D = DirectedGraph(a + 1)
+        for i in range(1, a + 1):
+            D.add_edge(i, i + 1)
+        if b % 2 and a >= 1:
+            D.add_edge(a + 1, 1)
+        return F.new_digraph_edges(D)
+    raise KeyError(which)
+
+
+def _hist_lits(spec, top):
+    """[[position, sign], ...] -> literals over the variables 1..top (no literal when top == 0)"""
+    return [(1 + pos % top) * sign for pos, sign in spec] if top > 0 else []
+
+
+def _hist_start(start, rseed):
+    """-> (F, model n, model clauses, texts that may reach a comment)"""
+    from cnfgen import CNF
+    kind = start[0]
+    if kind == 'empty':
+        return CNF(), 0, [], []
+    if kind == 'described':
+        return CNF(description=start[1]), 0, [], [start[1]]
+    if kind == 'clauses':
+        cl = [list(c) for c in start[1]]
+        return CNF(cl), max([abs(l) for c in cl for l in c] + [0]), cl, []
+    if kind == 'read':
+        n, cl = start[1], [list(c) for c in start[2]]
+        return CNF.from_file(io.StringIO(_render_independent(n, cl))), n, cl, []
+    if kind == 'family':
+        random.seed(rseed)
+        F = _family({'family': start[1], 'params': start[2], 'rseed': rseed})
+        n, cl = _snapshot(F)
+        return F, n, cl, []
+    if kind == 'cli':
+        F, _ = _run_cli(['cnfgen'] + [str(a) for a in start[1]], 'formula')
+        n, cl = _snapshot(F)
+        return F, n, cl, []
+    raise KeyError(kind)
+
+
+def _run_history(case, labels):
+    """Encodings of ONE formula object interleaved with legal changes of that object.
+
+    The harness keeps its own model (number of variables, clause list) of the formula: every
+    operation has a documented effect on it; every encoding must describe the model as it is at
+    that moment."""
+    F, n, clauses, texts = _hist_start(case['start'], case['rseed'])
+    start_state = (n, [list(c) for c in clauses])
+    labels.add('hist-start-' + case['start'][0])
+    header, labelled = [], []
+    last = {}                    # via -> (n, m, header entries, labelled variables) at its previous use
+    tmp = path = None
+    if any(st[0] == 'enc' and st[1] == 'file' for st in case['steps']):
+        tmp = _tmpdir()
+        path = os.path.join(tmp, 'history.cnf')     # the same file is written again and again
+    nenc = nmut = 0
+    try:
+        for k, st in enumerate(case['steps']):
+            op = st[0]
+            if op == 'enc':
+                via, header_on, varnames_on = st[1], bool(st[2]), bool(st[3])
+                what = "step {} of a history, {} after {}".format(k, via, [s[0] for s in case['steps'][:k]])
+                if via == 'cli-string':
+                    if case['start'][0] != 'cli':
+                        continue
+                    text = _run_cli(['cnfgen'] + [str(a) for a in case['start'][1]], 'string')[0]
+                    fake = {'header': [], 'vars': []}
+                    _verify_output(text, start_state[0], start_state[1], False, False, fake,
+                                   what + " [the same command line asked again for a string]")
+                    labels.add('hist-cli-string')
+                    continue
+                text, header_on, varnames_on = _encode(F, via, header_on, varnames_on, path)
+                fake = {'header': header + [['description', t] for t in texts], 'vars': [['var', t] for t in labelled]}
+                if _snapshot(F) != (n, clauses):
+                    raise Violation("{}: the formula object holds {} variables and {} clauses, the operations applied "
+                                    "to it give {} variables and {} clauses".format(
+                                        what, F.number_of_variables(), len(F), n, len(clauses)))
+                _verify_output(text, n, clauses, header_on, varnames_on, fake, what,
+                               path=path if via == 'file' else None)
+                nenc += 1
+                prev = last.get(via)
+                if prev is not None:
+                    labels.add('hist-again')
+                    same_m, same_n = prev[1] == len(clauses), prev[0] == n
+                    if same_m and not same_n:
+                        labels.add('hist-again-vars-only')
+                        if via == 'to_dimacs':
+                            labels.add('hist-to_dimacs-again-vars-only')
+                    elif not same_m:
+                        labels.add('hist-again-clauses')
+                    elif prev[2:] != (len(header), len(labelled)):
+                        labels.add('hist-again-comments-only')
+                    else:
+                        labels.add('hist-again-unchanged')
+                last[via] = (n, len(clauses), len(header), len(labelled))
+                labels.add('via-' + via)
+                continue
+            nmut += 1
+            labels.add('hist-op-' + op)
+            if op == 'clause':
+                lits = _hist_lits(st[1], n + st[2])
+                check = bool(st[3]) or any(abs(l) > n for l in lits)
+                F.add_clause(lits, check=check)
+                clauses.append(lits)
+                n = max([n] + [abs(l) for l in lits])
+            elif op == 'clauses':
+                new = [_hist_lits(c, n + st[2]) for c in st[1]]
+                F.add_clauses_from(iter(new))
+                clauses.extend(new)
+                n = max([n] + [abs(l) for c in new for l in c])
+            elif op == 'numvar':
+                F.update_variable_number(max(0, n + st[1]))
+                n = max(n, n + st[1])
+            elif op == 'var':
+                v = F.new_variable(label=st[1])
+                n += 1
+                if v != n:
+                    raise Violation("new_variable() returned {} on a formula with {} variables".format(v, n - 1))
+                if st[1] is not None:
+                    labelled.append(st[1])
+            elif op == 'block':
+                F.new_block(st[1], st[2], label=_esc(st[3]) + '[{},{}]')
+                n += st[1] * st[2]
+                labelled.append(st[3])
+            elif op == 'group':
+                _new_group(F, st[1], st[2], st[3])
+                n += _group_size(st[1], st[2], st[3])
+            elif op == 'header':
+                F.header[st[1]] = st[2]
+                header.append([st[1], st[2]])
+            elif op in ('parity', 'linear'):
+                # clauses made by the library over existing variables: they are appended, nothing else changes
+                lits = [v * (1 if (st[2] >> v) & 1 else -1) for v in range(1, min(n, st[1]) + 1)]
+                before = len(F)
+                if op == 'parity':
+                    F.add_parity(lits, st[3] % 2)
+                else:
+                    F.add_linear(lits, LINEAR_OPS[st[3] % 6], st[4])
+                n2, now = _snapshot(F)
+                if n2 != n or now[:before] != clauses or len(now) < before:
+                    raise Violation("add_{} over the variables {} changed the number of variables ({} -> {}) or the "
+                                    "clauses already in the formula".format(op, lits, n, n2))
+                clauses.extend(now[before:])
+            else:
+                raise KeyError(op)
+    finally:
+        if tmp is not None:
+            shutil.rmtree(tmp, ignore_errors=True)
+    labels.add('hist-enc>=3' if nenc >= 3 else 'hist-enc<3')
+    labels.add('hist-ops-{}'.format(min(nmut, 6)))
+    fake = {'header': header, 'vars': [['var', t] for t in labelled]}
+    labels |= _text_labels(fake)
+    out = _writer_outcome(labels, n, clauses, True, {})
+    return Outcome(labels=out.labels, nontrivial=nenc >= 2 and nmut >= 1)
 
 
 # ---- generators for (a)
@@ -523,8 +746,99 @@ def _st_cli(draw):
     return case
 
 
-_S_KIND = st.sampled_from(['hand'] * 5 + ['family'] * 3 + ['cli'] * 2)
-_ST_HAND, _ST_FAMILY, _ST_CLI = _st_hand(), _st_family(), _st_cli()
+# history cases: a start, then 2..6 changes of the object with encodings before, between and after them
+_S_POSLIT = st.tuples(_S_CAP, _S_SIGN).map(list)
+_S_HCLAUSE = st.lists(_S_POSLIT, max_size=4)
+_S_EXTRA = st.sampled_from([0, 0, 0, 1, 2])
+_S_HKEY = st.one_of(st.sampled_from(['description', 'comment', 'note']), _U)
+_S_HMUT = st.one_of(
+    st.tuples(st.just('clause'), _S_HCLAUSE, _S_EXTRA, _S_BOOL),
+    st.tuples(st.just('clause'), _S_HCLAUSE, _S_EXTRA, _S_BOOL),
+    st.tuples(st.just('clauses'), st.lists(_S_HCLAUSE, max_size=3), _S_EXTRA),
+    st.tuples(st.just('numvar'), st.integers(-2, 3)),
+    st.tuples(st.just('numvar'), st.integers(1, 40)),
+    st.tuples(st.just('var'), st.one_of(st.none(), _U)),
+    st.tuples(st.just('block'), st.integers(1, 3), st.integers(1, 2), _U),
+    st.tuples(st.just('group'), st.sampled_from(HIST_GROUPS), st.integers(0, 4), st.integers(0, 3)),
+    st.tuples(st.just('header'), _S_HKEY, st.one_of(_U, st.integers(-3, 99))),
+    st.tuples(st.just('parity'), st.integers(0, 4), st.integers(0, 31), _S_BIT),
+    st.tuples(st.just('linear'), st.integers(0, 4), st.integers(0, 31), st.integers(0, 5), st.integers(-1, 5)),
+).map(list)
+_S_HVIA = st.sampled_from(['to_dimacs'] * 4 + ['strio', 'strio', 'strio-explicit', 'to_dimacs_file', 'stdout', 'file'])
+_S_HENC = st.tuples(st.just('enc'), _S_HVIA, _S_BOOL, _S_BOOL).map(list)
+_S_HENCS = st.lists(_S_HENC, min_size=0, max_size=2)
+_S_HROUND = st.tuples(_S_HMUT, _S_HENCS)
+_S_HROUNDS = st.lists(_S_HROUND, min_size=2, max_size=6)
+_S_HSTARTKIND = st.sampled_from(['empty'] * 4 + ['described'] * 2 + ['clauses'] * 4 + ['read'] * 2 + ['family'] * 4 + ['cli'])
+_S_HCLI = st.sampled_from(HIST_CLI)
+_S_SMALLCNF = st.lists(st.lists(st.builds(lambda v, s: v * s, st.integers(1, 6), _S_SIGN), max_size=3), max_size=5)
+
+
+@st.composite
+def _st_history(draw):
+    kind = draw(_S_HSTARTKIND)
+    if kind == 'empty':
+        start = ['empty']
+    elif kind == 'described':
+        start = ['described', draw(_U)]
+    elif kind == 'clauses':
+        start = ['clauses', draw(_S_SMALLCNF)]
+    elif kind == 'read':
+        cl = draw(_S_SMALLCNF)
+        start = ['read', max([abs(l) for c in cl for l in c] + [0]) + draw(_I[0, 2]), cl]
+    elif kind == 'family':
+        f = draw(_ST_FAMILY)
+        start = ['family', f['family'], f['params']]
+    else:
+        start = ['cli', draw(_S_HCLI)]
+    cli = kind == 'cli'
+    steps = [draw(_S_HENC)]
+    if cli and draw(_S_BOOL):
+        steps.append(['enc', 'cli-string', False, False])
+    for mut, encs in draw(_S_HROUNDS):
+        steps.append(mut)
+        steps.extend(encs)
+        if cli and draw(_S_FOUR) == 0:
+            steps.append(['enc', 'cli-string', False, False])
+    steps.append(draw(_S_HENC))
+    return {'kind': 'history', 'start': start, 'steps': steps, 'rseed': draw(_S_RSEED)}
+
+
+def enum_history(tier):
+    """encode / one change / encode for every pair of output paths and every kind of change, from an empty
+    and a non-empty formula; encode / change / encode / change / encode through one path for every ordered
+    pair of changes"""
+    lit = [[0, 1], [1, -1]]
+    muts = [['clause', lit, 0, True], ['clause', lit, 0, False], ['clause', lit, 2, True], ['clause', [], 0, True],
+            ['clauses', [lit, []], 1], ['clauses', [], 0],
+            ['numvar', 1], ['numvar', 7], ['numvar', 0], ['numvar', -1],
+            ['var', None], ['var', 'x'], ['block', 2, 2, 'b'],
+            ['header', 'note', 'p cnf 1 1'], ['header', 'description', 'again'],
+            ['parity', 2, 1, 1], ['linear', 3, 5, 0, 1]] + [['group', g, 3, 2] for g in HIST_GROUPS]
+    starts = [['empty'], ['clauses', [[1, -2], [2, 3], []]], ['read', 5, [[1, -2], [4]]]]
+    for start in starts:
+        for mut in muts:
+            for v1 in HIST_VIAS:
+                for v2 in HIST_VIAS:
+                    if v1 != v2 and 'to_dimacs' not in (v1, v2) and tier == 'quick':
+                        continue
+                    flags = (mut[0] == 'header', mut[0] in ('var', 'block'))
+                    yield {'kind': 'history', 'start': start, 'rseed': 1,
+                           'steps': [['enc', v1, flags[0], flags[1]], mut, ['enc', v2, flags[0], flags[1]]]}
+    for via in ('to_dimacs', 'strio', 'file'):
+        for m1 in muts:
+            for m2 in muts:
+                yield {'kind': 'history', 'start': starts[1], 'rseed': 1,
+                       'steps': [['enc', via, False, False], m1, ['enc', via, True, True], m2, ['enc', via, False, False]]}
+    for argv in HIST_CLI:
+        for mut in (muts[2], muts[7], muts[11]):
+            yield {'kind': 'history', 'start': ['cli', argv], 'rseed': 1,
+                   'steps': [['enc', 'cli-string', False, False], ['enc', 'to_dimacs', False, False], mut,
+                             ['enc', 'to_dimacs', False, False], ['enc', 'cli-string', False, False]]}
+
+
+_S_KIND = st.sampled_from(['hand'] * 5 + ['family'] * 3 + ['cli'] * 2 + ['history'] * 5)
+_ST_HAND, _ST_FAMILY, _ST_CLI, _ST_HISTORY = _st_hand(), _st_family(), _st_cli(), _st_history()
 
 
 @st.composite
@@ -532,6 +846,8 @@ def strat_writer(draw):
     kind = draw(_S_KIND)
     if kind == 'cli':
         return draw(_ST_CLI)
+    if kind == 'history':
+        return draw(_ST_HISTORY)
     case = draw(_ST_HAND if kind == 'hand' else _ST_FAMILY)
     case['chain'] = draw(_S_CHAIN)
     case['rseed'] = draw(_S_RSEED)
@@ -577,6 +893,7 @@ def enum_writer(tier):
                             if via == 'file':
                                 case['fname'] = 'formula.cnf'
                             yield case
+    yield from enum_history(tier)
 
 
 # ---------------------------------------------------------------------------
@@ -640,6 +957,9 @@ def _read_with_tree(text, mode):
 
 
 def run_reader(case):
+    if 'big' in case:
+        return run_reader_big(case)
+    _BIG_MEMO.clear()
     text, mode = case['text'], case['mode']
     verdict = rd.classify(text)
     got, exc, mode = _read_with_tree(text, mode)
@@ -675,6 +995,288 @@ def run_reader(case):
     return Outcome(labels=labels, nontrivial=has_p and ntok >= 1, rejected=exc is not None)
 
 
+# ---- (b') the reader at scale: texts of 1..4 MiB, every alignment of the text with the powers of two
+
+BIG_MODES = ['file', 'strio', 'handle', 'parse', 'stdin', 'handle-raw', 'cli-file']
+BIG_SEPS = [' ', ' ', ' ', ' ', '  ', '\t', ' \t ', '\n', '\n', ' \n', '\r\n', '\nc 1 0\n']
+BIG_HUGE_N = 10 ** 9 + 7
+CUT_EXPONENTS = (16, 20, 21, 22)
+_BIG_MEMO = {}
+
+
+def _big_body(size, shape, salt):
+    """-> (clause list, text of the clauses without problem line).  Pseudo-random clauses of width 0..5 over
+    variables of 1..5 digits (log-uniform), rendered in the given shape, at least `size` characters."""
+    key = (size, shape, salt)
+    if key in _BIG_MEMO:
+        return _BIG_MEMO[key]
+    rng = random.Random(salt * 7919 + size)
+    rnd = rng.random
+    clauses, out, tot = [], [], 0
+    nseps = len(BIG_SEPS)
+    since_nl = 0
+    while tot < size:
+        c = []
+        for _ in range(int(rnd() * 6)):
+            v = int(10 ** (rnd() * 4.99))
+            c.append(v if rnd() < .5 else -v)
+        clauses.append(c)
+        if shape == 'writer':
+            ln = ''.join([str(l) + ' ' for l in c]) + '0\n'
+        elif shape == 'free':
+            ln = ''.join([str(l) + BIG_SEPS[int(rnd() * nseps)] for l in c]) + '0' + BIG_SEPS[int(rnd() * nseps)]
+        elif shape == 'long':           # lines of about 100000 characters
+            ln = ''.join([str(l) + ' ' for l in c]) + '0'
+            since_nl += len(ln) + 1
+            if since_nl > 100000:
+                ln += '\n'
+                since_nl = 0
+            else:
+                ln += ' '
+        elif shape == 'oneline':        # every clause on one line
+            ln = ''.join([str(l) + ' ' for l in c]) + '0 '
+        else:
+            raise KeyError(shape)
+        out.append(ln)
+        tot += len(ln)
+    body = ''.join(out)
+    if not body.endswith('\n'):
+        body = body.rstrip(' \t') + '\n'
+    _BIG_MEMO.clear()
+    _BIG_MEMO[key] = (clauses, body)
+    return clauses, body
+
+
+def _filler(k, wide=0):
+    """A piece of exactly k characters that adds nothing to the formula (blank line / comment line)."""
+    if k <= 0:
+        return ''
+    if k == 1:
+        return '\n'
+    w = min(wide, k - 2)
+    return 'c' + 'é' * w + 'x' * (k - 2 - w) + '\n'
+
+
+def _cut_kind(text, B):
+    a, b = text[B - 1], text[B]
+    if a == '\n':
+        return 'nl|'
+    if b in '\r\n':
+        return '|nl'
+    if a == '-':
+        return 'minus|digit'
+    if a.isdigit():
+        return 'tok|tok' if b.isdigit() else ('tok|blank' if b in ' \t' else 'other')
+    if a in ' \t' and (b.isdigit() or b == '-'):
+        return 'blank|tok'
+    return 'other'
+
+
+def _big_text(spec):
+    """-> (text, n, clauses, valid).  spec: size, shape, salt, n ('tight'|'huge'), pad | align=[kind, exponent],
+    wide, total (exact length of the whole text), eol, defect ('range'|'count+1'|'count-1'|'open') + where"""
+    clauses, body = _big_body(spec['size'], spec['shape'], spec.get('salt', 1))
+    top = max([abs(l) for c in clauses for l in c] + [0])
+    n = top if spec.get('n', 'tight') == 'tight' else BIG_HUGE_N
+    m = len(clauses)
+    defect = spec.get('defect')
+    if defect == 'range':
+        # one literal of one clause is n+1: the clause number is given as a fraction of the text, or taken
+        # next to the 2^e-th character
+        clauses = list(clauses)
+        if 'near' in spec:
+            # the clause that holds character 2^near of the body (writer shape: one clause per line)
+            i = body.count('\n', 0, 1 << spec['near'])
+        else:
+            i = int(spec.get('where', 0.5) * (m - 1))
+        while not clauses[i]:
+            i += 1
+        lines = body.split('\n')
+        if spec['shape'] != 'writer':
+            raise KeyError('defect range needs the writer shape')
+        clauses[i] = [n + 1] + clauses[i][1:]
+        lines[i] = ''.join([str(l) + ' ' for l in clauses[i]]) + '0'
+        body = '\n'.join(lines)
+    elif defect == 'count+1':
+        m += 1
+    elif defect == 'count-1':
+        m -= 1
+    elif defect == 'open':
+        body += '1 -2\n'             # a last clause without its closing 0
+    head = 'p cnf {} {}\n'.format(n, m)
+    T0 = head + body
+    wide = spec.get('wide', 0)
+    if 'align' in spec:
+        kind, e = spec['align']
+        B = 1 << e
+        pad = 0
+        for p in range(0, 65):
+            if 1 <= B - p < len(T0) and _cut_kind(T0, B - p) == kind:
+                pad = p
+                break
+    else:
+        pad = spec.get('pad', 0)
+    text = _filler(pad, wide) + T0
+    if 'total' in spec:
+        rest = spec['total'] - len(text)
+        if rest < 0:
+            text = None          # the body is already longer: the enumerator asked for too little
+        else:
+            text += _filler(rest)
+    if text is not None and not spec.get('eol', True):
+        text = text.rstrip('\r\n')
+    return text, n, clauses, defect is None
+
+
+def _read_big(text, mode):
+    """-> ((n, clauses), None) or (None, exception)"""
+    from cnfgen import CNF
+    from cnfgen.utils.parsedimacs import parse_dimacs
+    from cnfgen.clitools.cmdline import CLIError
+    if mode == 'parse':
+        try:
+            seq = list(parse_dimacs(io.StringIO(text)))
+        except ValueError as e:
+            return None, e
+        if len(seq) < 2 or seq[1] != len(seq) - 2:
+            raise Violation("parse_dimacs yields m={} followed by {} clauses on a text of {} characters".format(
+                seq[1] if len(seq) > 1 else None, len(seq) - 2, len(text)))
+        return (seq[0], [list(c) for c in seq[2:]]), None
+    if mode == 'strio':
+        try:
+            return _snapshot(CNF.from_file(io.StringIO(text))), None
+        except ValueError as e:
+            return None, e
+    if mode == 'stdin':
+        old = sys.stdin
+        sys.stdin = io.StringIO(text)
+        try:
+            return _snapshot(CNF.from_file()), None
+        except ValueError as e:
+            return None, e
+        finally:
+            sys.stdin = old
+    tmp = _tmpdir()
+    try:
+        path = os.path.join(tmp, 'big.cnf')
+        with open(path, 'wb') as f:
+            f.write(text.encode('utf-8'))
+        try:
+            if mode == 'file':
+                return _snapshot(CNF.from_file(path)), None
+            if mode == 'handle':
+                with open(path, encoding='utf-8') as fh:
+                    return _snapshot(CNF.from_file(fh)), None
+            if mode == 'handle-raw':
+                with open(path, encoding='utf-8', newline='', buffering=1 << 16) as fh:
+                    return _snapshot(CNF.from_file(fh)), None
+            if mode == 'cli-file':
+                F, _ = _run_cli(['cnfgen', '-q', 'dimacs', path], 'formula')
+                gc.collect()
+                return _snapshot(F), None
+        except (ValueError, CLIError) as e:
+            return None, e
+        raise KeyError(mode)
+    finally:
+        shutil.rmtree(tmp, ignore_errors=True)
+
+
+def run_reader_big(case):
+    spec, mode = case['big'], case['mode']
+    text, n, clauses, valid = _big_text(spec)
+    if text is None:
+        return Outcome(labels=['big-spec-unmet'], nontrivial=False)
+    labels = ['big', 'big-mode-' + mode, 'big-shape-' + spec['shape'], 'big-n-' + spec.get('n', 'tight'),
+              'big>=2^{}'.format(min(22, len(text).bit_length() - 1))]
+    for e in CUT_EXPONENTS:
+        if (1 << e) < len(text):
+            labels.append('cut{}-{}'.format(e, _cut_kind(text, 1 << e)))
+    if len(text) in (1 << 16, 1 << 20, 1 << 21, 1 << 22):
+        labels.append('big-length-power-of-two')
+    if not spec.get('eol', True):
+        labels.append('big-no-final-newline')
+    what = "[{}] text of {} characters ({} shape, n {}, {} filler characters in front)".format(
+        mode, len(text), spec['shape'], spec.get('n', 'tight'), text.index('p cnf'))
+    if spec.get('ref', len(text) < (3 << 19) and (spec['shape'] != 'writer' or not valid or 'total' in spec)):
+        # the generator is checked against the independent reader (and the reader against the generator)
+        s = rd.interpret(text, **rd.STRICT)
+        if valid and not (s.ok and s.n == n and s.clauses == clauses):
+            raise RuntimeError("big-text generator and reference reader disagree: {}".format(repr(s)[:200]))
+        if not valid and s.ok:
+            raise RuntimeError("reference reader accepts a text built as malformed ({})".format(spec['defect']))
+        labels.append('big-ref-checked')
+    got, exc = _read_big(text, mode)
+    if valid:
+        labels.append('accepted')
+        if exc is not None:
+            raise Violation("{}: valid DIMACS rejected ({}: {}); the text has {} variables and {} well formed clauses; "
+                            "characters around 2^20: {!r}".format(what, type(exc).__name__, str(exc)[:120], n, len(clauses),
+                                                                 text[(1 << 20) - 20:(1 << 20) + 20]))
+        if got[0] != n or got[1] != clauses:
+            i = next((i for i, (a, b) in enumerate(zip(got[1], clauses)) if a != b), min(len(got[1]), len(clauses)))
+            raise Violation("{}: misread: returned {} variables / {} clauses, the text has {} / {}; clause #{} read as {}, "
+                            "written {}".format(what, got[0], len(got[1]), n, len(clauses), i,
+                                                got[1][i] if i < len(got[1]) else None,
+                                                clauses[i] if i < len(clauses) else None))
+    else:
+        labels.append('rejected-big-' + spec['defect'])
+        if exc is None:
+            raise Violation("{}: malformed text accepted (defect: {}): returned {} variables / {} clauses".format(
+                what, spec['defect'], got[0], len(got[1])))
+    return Outcome(labels=labels, nontrivial=True, rejected=exc is not None)
+
+
+def enum_reader_big(tier):
+    M = 1 << 20
+    slack = 4096
+    q = [   # quick tier: each kind of cut at the 2^20-th character, one text per block size 2^16 / 2^21 / 2^22
+        ({'size': M + slack, 'shape': 'writer', 'n': 'huge', 'align': ['tok|blank', 20], 'ref': True}, 'file'),
+        ({'size': 4 * M + slack, 'shape': 'writer', 'n': 'huge', 'align': ['tok|blank', 22], 'salt': 3}, 'strio'),
+        ({'size': M + slack, 'shape': 'writer', 'n': 'tight', 'align': ['blank|tok', 20]}, 'strio'),
+        ({'size': 2 * M + slack, 'shape': 'writer', 'n': 'huge', 'align': ['blank|tok', 21], 'wide': 5, 'salt': 2}, 'stdin'),
+        ({'size': M + slack, 'shape': 'writer', 'n': 'huge', 'align': ['nl|', 20]}, 'handle'),
+        ({'size': M + slack, 'shape': 'free', 'n': 'huge', 'align': ['tok|tok', 20]}, 'parse'),
+        ({'size': M + slack, 'shape': 'writer', 'n': 'tight', 'align': ['minus|digit', 20]}, 'handle-raw'),
+        ({'size': M + slack, 'shape': 'writer', 'n': 'huge', 'align': ['|nl', 20]}, 'cli-file'),
+        ({'size': M + (1 << 17), 'shape': 'long', 'n': 'huge', 'align': ['tok|blank', 16]}, 'file'),
+        ({'size': M + slack, 'shape': 'oneline', 'n': 'tight', 'align': ['blank|tok', 20]}, 'strio'),
+        ({'size': M - 200, 'shape': 'writer', 'n': 'huge', 'total': M}, 'file'),
+        ({'size': M + slack, 'shape': 'writer', 'n': 'tight', 'defect': 'range', 'near': 20, 'pad': 7}, 'file'),
+        ({'size': M + slack, 'shape': 'free', 'n': 'huge', 'defect': 'count-1', 'pad': 3}, 'strio'),
+        ({'size': M + slack, 'shape': 'free', 'n': 'tight', 'defect': 'open', 'pad': 0, 'eol': False}, 'parse'),
+    ]
+    for spec, mode in q:
+        yield {'big': spec, 'mode': mode}
+    if tier != 'thorough':
+        return
+    nm = len(BIG_MODES)
+    for pad in range(65):           # the same body for 65 consecutive cases: it is built once per process
+        for mode in ('file', 'strio'):
+            yield {'big': {'size': M + slack, 'shape': 'writer', 'n': 'huge', 'pad': pad, 'wide': pad % 3}, 'mode': mode}
+    for pad in range(65):
+        yield {'big': {'size': M + slack, 'shape': 'writer', 'n': 'tight', 'pad': pad, 'salt': 5}, 'mode': BIG_MODES[pad % nm]}
+    for pad in range(65):
+        yield {'big': {'size': M + slack, 'shape': 'free', 'n': 'huge', 'pad': pad, 'salt': 4}, 'mode': BIG_MODES[(pad + 2) % nm]}
+    for pad in range(65):
+        yield {'big': {'size': 2 * M + slack, 'shape': 'writer', 'n': 'huge', 'pad': pad, 'salt': 2}, 'mode': BIG_MODES[(pad + 4) % nm]}
+    for pad in range(0, 65, 3):
+        yield {'big': {'size': 4 * M + slack, 'shape': 'writer', 'n': 'huge', 'pad': pad, 'salt': 3}, 'mode': BIG_MODES[pad % nm]}
+    for shape in ('long', 'oneline'):
+        for pad in range(0, 65, 2):
+            yield {'big': {'size': M + (1 << 17), 'shape': shape, 'n': 'huge', 'pad': pad, 'salt': 6}, 'mode': BIG_MODES[pad % nm]}
+    for e in (16, 20, 21):
+        for d in (-2, -1, 0, 1, 2):     # the text ends at, just before, just after a block edge; with and without final LF
+            for eol in (True, False):
+                yield {'big': {'size': (1 << e) - 300, 'shape': 'writer', 'n': 'huge', 'total': (1 << e) + d, 'eol': eol,
+                               'salt': 7}, 'mode': BIG_MODES[(d + e) % nm]}
+    for kind in ('tok|blank', 'blank|tok', 'tok|tok', 'nl|', '|nl', 'minus|digit'):
+        for i, defect in enumerate(('range', 'count+1', 'count-1', 'open')):
+            spec = {'size': M + slack, 'shape': 'writer', 'n': 'tight', 'defect': defect, 'align': [kind, 20], 'salt': 8}
+            if defect == 'range':
+                spec['near'] = 20
+            yield {'big': spec, 'mode': BIG_MODES[i % nm]}
+
+
 _S_MODE = st.sampled_from(['parse'] * 12 + ['strio'] * 12 + ['file'] * 4 + ['cli-file', 'cli-stdin'])
 
 
@@ -692,6 +1294,7 @@ def _corpus():
 
 
 def enum_reader(tier):
+    yield from enum_reader_big(tier)
     for t in _corpus():
         for mode in READER_MODES:
             yield {'text': t, 'mode': mode, 'origin': ['corpus']}
@@ -811,13 +1414,21 @@ def enum_fuzz(tier):
 
 SUBCHECKS = [
     SubCheck('writer', run_writer, strategy=strat_writer, enumerate_cases=enum_writer,
-             quick=2000, thorough=50000,
-             rule="hand-built CNFs (0..12 variables from singleton/block/anonymous groups with unusual labels, 0..30 clauses of width 0..4, empty clauses, unused variables), 8 library families and 14 cnfgen command lines (incl. `dimacs <file with unusual name>`), chains flip/shuffle/one arity-2 substitution, 0..3 header entries with unusual keys/values, export_header x export_varnames, via to_dimacs/to_file(StringIO)/to_file(None)/to_file(filename)/to_dimacs_file/cnfgen -q|-v [--varnames] [-o]; plus a complete grid of 6 corner formulas x 11 corner texts x 3 positions x flags x 6 paths. Oracle: independent strict reader accepts, one problem line with the true counts, same clauses in order, comment lines start with 'c ', the tree's reader returns the same formula. Non-trivial: >=1 clause and (header on or >=1 unused variable)",
+             quick=3000, thorough=75000,
+             rule="hand-built CNFs (0..12 variables from singleton/block/anonymous groups with unusual labels, 0..30 clauses of width 0..4, empty clauses, unused variables), 8 library families and 14 cnfgen command lines (incl. `dimacs <file with unusual name>`), chains flip/shuffle/one arity-2 substitution, 0..3 header entries with unusual keys/values, export_header x export_varnames, via to_dimacs/to_file(StringIO)/to_file(None)/to_file(filename)/to_dimacs_file/cnfgen -q|-v [--varnames] [-o]; plus a complete grid of 6 corner formulas x 11 corner texts x 3 positions x flags x 6 paths. Oracle: independent strict reader accepts, one problem line with the true counts, same clauses in order, comment lines start with 'c ', the tree's reader returns the same formula. Non-trivial: >=1 clause and (header on or >=1 unused variable). "
+                  "HISTORY (1/3 of the generated cases, kind=history): ONE formula object (CNF(), CNF(description), CNF(clauses), CNF.from_file(...), one of 8 library families, cli(argv, mode='formula') for 11 command lines) is encoded, then changed 2..6 times by add_clause(check=True|False, literals over the current variables or up to 2 beyond, empty clause) / add_clauses_from / update_variable_number(n-2..n+40) / new_variable / new_block / new_combinations, _with_replacement, permutations, words, mapping, binary_mapping, graph_edges, bipartite_edges, digraph_edges / header[k]=v / add_parity / add_linear, with 0..2 encodings after every change and one at the end, each through to_dimacs() (40%), to_file(StringIO|None|the same file name again), to_dimacs_file, with any export flags, and for cli starts cli(argv, mode='string') asked again in between; plus enumerated: encode/change/encode for 3 starts x 26 changes x pairs of paths (all 36 in the thorough tier), encode/change/encode/change/encode for 26 x 26 ordered pairs of changes x 3 paths, 11 command lines x 3 changes. Oracle: the harness's own model of the object (n and clause list updated by the documented effect of each operation; group sizes from their combinatorial definition) - every encoding must pass the writer oracle above against the model as it is at that moment, so all paths agree with each other and read back equal; the object must hold the model. Non-trivial: >=2 encodings and >=1 change",
              required_labels=['kind-hand', 'kind-family', 'kind-cli', 'empty-formula', 'empty-clause', 'unused-vars',
                               'header-on', 'header-off', 'varnames-on', 'varnames-off', 'via-to_dimacs', 'via-strio',
                               'via-file', 'via-stdout', 'via-cli-stdout', 'via-cli-file', 'text-lf', 'text-cr',
                               'text-nonascii', 'text-problem-line', 'text-leading-c', 'text-empty', 'chain',
-                              'clauses>=20', 'cli-dimacs']),
+                              'clauses>=20', 'cli-dimacs',
+                              'kind-history', 'hist-again-vars-only', 'hist-to_dimacs-again-vars-only',
+                              'hist-again-clauses', 'hist-again-comments-only', 'hist-again-unchanged',
+                              'hist-cli-string', 'hist-enc>=3', 'hist-ops-2', 'hist-ops-6',
+                              'hist-start-empty', 'hist-start-clauses', 'hist-start-read', 'hist-start-family',
+                              'hist-start-cli', 'hist-start-described'] +
+                             ['hist-op-' + o for o in ('clause', 'clauses', 'numvar', 'var', 'block', 'group', 'header',
+                                                       'parity', 'linear')]),
     SubCheck('reader', run_reader, strategy=strat_reader, enumerate_cases=enum_reader,
              quick=20000, thorough=600000,
              rule="grammar of DIMACS-like documents (n<=6, <=6 clauses, comments anywhere, blank lines, several clauses per line, clauses spanning lines, tabs, CRLF) composed with 0..2 of 17 mutators, raw st.text(), text over the alphabet 'pcnf 0123-+_\\n\\t\\r'; every text through parse_dimacs, CNF.from_file(StringIO), CNF.from_file(filename), cnfgen dimacs <file>|<stdin>; plus the texts of tests/test_dimacsparser.py and 41 corner texts x 5 modes. Oracle: reference interpretation (accept => identical formula; reject => ValueError; gray => ValueError or a permissive reading). Non-trivial: problem line and >=1 clause token",
